@@ -499,3 +499,178 @@ func nonEmptyFact(f edgeFact, s ssa.Value) bool {
 	}
 	return false
 }
+
+// rootOnlyForEmptyPointer (R-TYPESTATE, v5): a handler replaces the whole document only when
+// the pointer it was given is "". The resolver answers (root, "") for "" and for "/" alike,
+// so a handler that decides "the destination is the document" from what the resolver
+// returned also takes the member with the empty name for the document and drops every other
+// member. Each write of the root slot in a handler (its own store through the slot's
+// pointer, or handing that pointer to a helper that stores through it) lies behind the fact
+// `path == ""` — stated directly, or through a container variable that can only be nil
+// there because its other definitions were tested non-nil.
+func (b *Body) rootOnlyForEmptyPointer(l *Ledger, ai *applyInfo) {
+	storesThrough := map[*ssa.Function]map[int]bool{}
+	var storing func(f *ssa.Function, depth int) map[int]bool
+	storing = func(f *ssa.Function, depth int) map[int]bool {
+		if m, ok := storesThrough[f]; ok {
+			return m
+		}
+		m := map[int]bool{}
+		storesThrough[f] = m
+		if f == nil || f.Blocks == nil || depth > 3 {
+			return m
+		}
+		allInstrs(f, func(i ssa.Instruction) {
+			switch x := i.(type) {
+			case *ssa.Store:
+				if p, ok := x.Addr.(*ssa.Parameter); ok && isRootSlotPtr(p.Type()) {
+					m[paramIdx(p)] = true
+				}
+			case ssa.CallInstruction:
+				g := x.Common().StaticCallee()
+				if g == nil || g == f {
+					return
+				}
+				for ai, a := range x.Common().Args {
+					if p, ok := a.(*ssa.Parameter); ok && isRootSlotPtr(p.Type()) && storing(g, depth+1)[ai] {
+						m[paramIdx(p)] = true
+					}
+				}
+			}
+		})
+		return m
+	}
+	for _, k := range rfc6902Kinds {
+		h := ai.handlers[k]
+		if h == nil {
+			continue
+		}
+		var pathVal ssa.Value
+		allInstrs(h, func(i ssa.Instruction) {
+			call, ok := i.(*ssa.Call)
+			if !ok {
+				return
+			}
+			f := call.Call.StaticCallee()
+			if f == nil || recvTypeName(f) != "Operation" || f.Name() != "Path" {
+				return
+			}
+			for _, ex := range extractOf(call, 0) {
+				pathVal = ex
+			}
+		})
+		key := fmt.Sprintf("handler %q: root slot written only for the empty pointer", k)
+		type site struct {
+			at   ssa.Instruction
+			what string
+		}
+		var sites []site
+		allInstrs(h, func(i ssa.Instruction) {
+			switch x := i.(type) {
+			case *ssa.Store:
+				if p, ok := x.Addr.(*ssa.Parameter); ok && isRootSlotPtr(p.Type()) {
+					sites = append(sites, site{i, "store through " + p.Name()})
+				}
+			case ssa.CallInstruction:
+				g := x.Common().StaticCallee()
+				if g == nil {
+					return
+				}
+				for ai, a := range x.Common().Args {
+					if p, ok := a.(*ssa.Parameter); ok && isRootSlotPtr(p.Type()) && storing(g, 0)[ai] {
+						sites = append(sites, site{i, fname(g) + " stores through " + p.Name()})
+					}
+				}
+			}
+		})
+		if len(sites) == 0 {
+			l.add("R-TYPESTATE", b.Name, key, b.rel(h.Pos()), Discharged, "the handler never writes the root slot", true)
+			continue
+		}
+		if pathVal == nil {
+			l.add("R-TYPESTATE", b.Name, key, b.rel(h.Pos()), Undecided, "the handler writes the root slot but its call of Operation.Path was not found", true)
+			continue
+		}
+		bad := ""
+		for _, s := range sites {
+			ok := false
+			for _, f := range dominatingFacts(s.at.Block()) {
+				if emptyFact(f, pathVal) || nilOnlyWhenEmpty(f, pathVal) {
+					ok = true
+				}
+			}
+			if !ok {
+				bad = s.what + " at " + b.posOf(s.at) + " is not behind a comparison of the path with \"\": the resolver answers (root, \"\") for \"\" and for \"/\" alike, so what it returned cannot tell the document from its member with the empty name"
+			}
+		}
+		if bad != "" {
+			l.add("R-TYPESTATE", b.Name, key, b.rel(h.Pos()), Violated, bad, true)
+		} else {
+			l.add("R-TYPESTATE", b.Name, key, b.rel(h.Pos()), Discharged, fmt.Sprintf("%d write(s) of the root slot, each behind path == \"\"", len(sites)), true)
+		}
+	}
+}
+
+func isRootSlotPtr(t types.Type) bool {
+	pt, ok := t.Underlying().(*types.Pointer)
+	return ok && isNamed(pt.Elem(), "container")
+}
+
+// emptyFact: the fact says that the string s is "".
+func emptyFact(f edgeFact, s ssa.Value) bool {
+	return nonEmptyFact(edgeFact{f.V, !f.True}, s)
+}
+
+// nilOnlyWhenEmpty: the fact is `v == nil` for a variable v that go/ssa merged from the
+// constant nil, arriving over an edge on which s == "" holds, and from values known to be
+// non-nil where they arrive: v is nil only where s is "".
+func nilOnlyWhenEmpty(f edgeFact, s ssa.Value) bool {
+	v, nonNilOnTrue, ok := nilTestOfCond(f.V)
+	if !ok || nonNilOnTrue == f.True {
+		return false
+	}
+	phi, ok := v.(*ssa.Phi)
+	if !ok {
+		return false
+	}
+	sawNil := false
+	for i, e := range phi.Edges {
+		pred := phi.Block().Preds[i]
+		if isNilConst(e) {
+			behind := false
+			for _, g := range dominatingFacts(pred) {
+				if emptyFact(g, s) {
+					behind = true
+				}
+			}
+			for si, sx := range pred.Succs {
+				if sx != phi.Block() || len(pred.Succs) != 2 || pred.Succs[0] == pred.Succs[1] {
+					continue
+				}
+				for _, g := range factsOnEdge(pred, si) {
+					if emptyFact(g, s) {
+						behind = true
+					}
+				}
+			}
+			if !behind {
+				return false
+			}
+			sawNil = true
+			continue
+		}
+		if knownNonNilAt(e, pred) {
+			continue
+		}
+		onEdge := false
+		for _, t := range nilTests(pred.Parent(), e) {
+			if t.Blk == pred && len(pred.Succs) == 2 && pred.Succs[0] != pred.Succs[1] && pred.Succs[t.NonNilSucc] == phi.Block() {
+				onEdge = true
+			}
+		}
+		if !onEdge {
+			return false
+		}
+	}
+	return sawNil
+}
